@@ -745,6 +745,12 @@ func (r *PipelineRunner) SaveToStore() {
 			if shouldRemoveJob {
 				delete(r.jobsByID, job.ID)
 				r.jobsByPipeline[job.Pipeline] = removeJobFromList(r.jobsByPipeline[job.Pipeline], job)
+				// A removed job must not be started later (a job of a removed pipeline could still be waiting)
+				if job.startTimer != nil {
+					job.startTimer.Stop()
+					job.startTimer = nil
+				}
+				r.waitListByPipeline[job.Pipeline] = removeJobFromWaitList(r.waitListByPipeline[job.Pipeline], job)
 
 				err := r.outputStore.Remove(job.ID.String())
 				if err != nil {
@@ -917,6 +923,10 @@ func removeJobFromWaitList(waitList []*PipelineJob, jobToRemove *PipelineJob) []
 func (r *PipelineRunner) determineIfJobShouldBeRemoved(index int, job *PipelineJob) (bool, string) {
 	pipelineDef, pipelineDefExists := r.defs.Pipelines[job.Pipeline]
 	if !pipelineDefExists {
+		if job.isRunning() {
+			// The tasks of the job still execute: keep it (it has to count as running) until it is finished
+			return false, "Keeping running job of removed pipeline"
+		}
 		return true, "Pipeline definition not found"
 	}
 
